@@ -111,6 +111,15 @@ def c20_configs(repo):
                 for testing in (0, 1):
                     for unit in [[u] for u in units] + [units]:
                         cfgs.append(dict(cc=cc, opt=opt, mode=mode, testing=testing, units=[os.path.relpath(u, repo) for u in unit]))
+    # "any supported compiler setting ... including kernel-mode and bare-metal": further settings under which the pinned core builds cleanly
+    # (position-independent code as for a shared object, general registers only / no FPU as in kernel code, 32-bit soft-float)
+    for cc in ("gcc", "clang"):
+        for extra in (["-fPIC"], ["-mgeneral-regs-only"], ["-mno-sse", "-mno-mmx", "-mno-80387", "-msoft-float"], ["-m32", "-msoft-float"], ["-m32", "-fpic"]):
+            for opt, mode in (("-O2", "freestanding"), ("-O0", "hosted")):
+                if mode == "hosted" and "-m32" in extra:
+                    continue   # no 32-bit C library headers on this machine: 32-bit settings are freestanding only
+                for testing in (0, 1):
+                    cfgs.append(dict(cc=cc, opt=opt, mode=mode, testing=testing, extra=extra, units=[os.path.relpath(u, repo) for u in units]))
     return cfgs
 
 
@@ -121,6 +130,7 @@ def c20_build(repo, cfg, outdir, tag):
         flags.append("-ffreestanding")
     if cfg["testing"]:
         flags.append("-DLLTD_TESTING")
+    flags += cfg.get("extra", [])
     objs = []
     for i, u in enumerate(cfg["units"]):
         o = os.path.join(outdir, "%s-%d.o" % (tag, i))
@@ -131,7 +141,7 @@ def c20_build(repo, cfg, outdir, tag):
     if len(objs) == 1:
         return objs[0], None
     out = os.path.join(outdir, tag + "-all.o")
-    r = subprocess.run(["ld", "-r", "-o", out, *objs], stdout=subprocess.PIPE, stderr=subprocess.STDOUT, text=True)
+    r = subprocess.run(["ld", "-r", *(["-m", "elf_i386"] if "-m32" in cfg.get("extra", []) else []), "-o", out, *objs], stdout=subprocess.PIPE, stderr=subprocess.STDOUT, text=True)
     if r.returncode:
         return None, "ld -r failed: " + r.stdout[-800:]
     return out, None
@@ -163,7 +173,7 @@ def c20_check_cfg(repo, cfg, outdir, tag, P):
     bad = [s for s in und if s not in P and s not in C20_MEM and not C20_RUNTIME.match(s)]
     if bad:
         return und, "core object (%s %s %s%s, %s) references symbol(s) outside the port API: %s" % (
-            cfg["cc"], cfg["opt"], cfg["mode"], " -DLLTD_TESTING" if cfg["testing"] else "", "+".join(os.path.basename(u) for u in cfg["units"]), ", ".join(bad))
+            cfg["cc"], cfg["opt"] + "".join(" " + x for x in cfg.get("extra", [])), cfg["mode"], " -DLLTD_TESTING" if cfg["testing"] else "", "+".join(os.path.basename(u) for u in cfg["units"]), ", ".join(bad))
     return und, None
 
 
